@@ -118,6 +118,8 @@ class Check:
               violations=len(self.violations))
     # extension checks (X..: behaviour beyond the listed properties) keep their evidence apart
     evdir = 'evidence' if not self.pid.startswith('X') else 'evidence_extra'
+    if os.environ.get('VERIF_REPO', '/repo') != '/repo':
+      evdir = 'evidence_scratch'      # a run against a scratch worktree (seeded change) must not replace the evidence
     os.makedirs(os.path.join(ROOT, evdir), exist_ok=True)
     with open(os.path.join(ROOT, evdir, '%s.json' % self.pid), 'w') as fh:
       json.dump(ev, fh, indent=1, default=str)
